@@ -906,6 +906,17 @@ def np_argmax(it, x):
     return best
 
 
+def np_argmin(it, x):
+    a = _arr(it, x)
+    if a.size == 0:
+        raise _I().IRaise(ValueError("attempt to get argmin of an empty sequence"))
+    best = 0
+    for i in range(1, a.size):
+        if it.decide(sym.lt(a.data[i], a.data[best])):       # first minimum, as numpy
+            best = i
+    return best
+
+
 _median_ctr = [0]
 
 
@@ -998,7 +1009,7 @@ def _np_table():
                  ("split", np_split), ("clip", np_clip), ("max", np_max), ("min", np_min), ("argmax", np_argmax),
                  ("median", np_median), ("isnan", np_isnan), ("linspace", np_linspace),
                  ("intersect1d", np_intersect1d), ("nonzero", np_nonzero), ("transpose", np_transpose),
-                 ("isclose", np_isclose), ("allclose", np_allclose)]:
+                 ("isclose", np_isclose), ("allclose", np_allclose), ("argmin", np_argmin)]:
         t[n] = ModelFn("np." + n, f)
     t["zeros"] = ModelFn("np.zeros", lambda it, shape, dtype="float": npm.zeros(_shape(it, shape)))
     t["ones"] = ModelFn("np.ones", lambda it, shape: npm.ones(_shape(it, shape)))
